@@ -8,6 +8,16 @@ ids = [p["id"] for p in props]
 HOOK_COMMITS = ["332865e1b", "bf49db00e", "0b99e4fc0", "68bfb6d5a"]
 
 CHECKS = {
+ "C02": dict(
+   level="exploration", design="§4 C02",
+   technique="runtime monitoring: differential oracle over executions (same session, enable_optimizer on vs off) with EXPLAIN VERBOSE diff as coverage monitor; reference model as third voice",
+   text="Every generated query is executed twice by the real engine, with the optimizer enabled and disabled, and the results (rows as bag / order / admissible slice, column names and types) must agree; a one-sided error is only accepted when the reference model says evaluation must fail. The EXPLAIN VERBOSE plans are diffed to record which rewrite kinds actually fired (12 kinds observed) and pairs where nothing fired do not count as non-trivial. Exploration of sampled queries/databases only.",
+   note="Trusts that SET enable_optimizer switches Optimizer::optimize for later statements and that EXPLAIN VERBOSE shows the executed plans. Shapes hitting recorded optimizer defects are skipped in the random stream and re-checked as fixed cases (known_cases.json)."),
+ "C03": dict(
+   level="exploration", design="§4 C03",
+   technique="runtime monitoring: metamorphic oracle over executions of one script under many physical configurations (partitions, batch size, join algorithm, deterministic vs production thread-pool executors), plus reference model",
+   text="Scripts of DDL, INSERTs, generated queries, CREATE TABLE AS and INSERT..SELECT are replayed under a configuration sample that always contains the corners (1/2/3/rows-1/rows/rows+1/64/512 partitions; batch sizes 1..8192 incl. exact multiples; hash joins on/off; det executor with random/lifo policies and the production ThreadedNativeExecutor with 1/2/16 threads). Every statement's rows, counts and schema must equal the reference configuration's and the model's. Sampled, not exhaustive.",
+   note="512-partition cases run under a wider memory cap (partitioned hash tables are quadratic in partitions); an allocation failure under the cap is reported as inconclusive, not as a violation."),
  "C01": dict(
    level="exploration", design="§4 C01",
    technique="runtime monitoring: reference-model oracle (naive SQL interpreter on the generator's AST) over executions of generated composed queries under a deterministic controlled scheduler with yields; outcome-class monitor",
